@@ -112,13 +112,40 @@ def bounds(tier):
             'nesting_depth': 2, 'leaf_depth': 2}
 
 
+def deep_specs():
+    """Deep probes: roll over the whole (window, stride) grid under group_by with three alternating keys and inputs long enough
+    to wrap every key's slot ring three times; large batch / window sizes; split on equal-but-not-identical predicate values."""
+    out = []
+    for w in range(1, 7):
+        for s in range(1, 7):
+            n = 3 * (3 * (w + s) + 2)
+            for inner in ([['to_list']], [['sum', True]]):
+                out.append(([['group_by', 'mod3', [['roll', w, s, inner]]]], list(range(n))))
+    out.append(([['batch', 300]], list(range(601))))
+    out.append(([['group_by', 'mod2', [['batch', 300]]]], list(range(1200))))
+    out.append(([['roll', 300, 300, [['count', True]]]], list(range(605))))
+    out.append(([['roll', 260, 130, [['count', True]]]], list(range(530))))
+    for seq in spaces.sequences([0, 1, 2], 5):
+        out.append(([['split', 'p_big', [['to_list']]]], seq))
+        out.append(([['group_by', 'mod2', [['split', 'p_str', [['count', True]]]]]], seq))
+    return out
+
+
 def units(tier):
     progs = programs(tier)
     L = 4 if tier == 'quick' else 5
-    return [{'progs': part, 'L': L} for part in spaces.shard(progs, 400 if tier == 'quick' else 3000)]
+    out = [{'progs': part, 'L': L} for part in spaces.shard(progs, 400 if tier == 'quick' else 3000)]
+    nd = len(deep_specs())
+    out += [{'deep': [i, min(nd, i + 40)]} for i in range(0, nd, 40)]
+    return out
 
 
 def cases(unit):
+    if 'deep' in unit:
+        ds = deep_specs()
+        for i in range(*unit['deep']):
+            yield {'spec': ds[i][0], 'seq': ds[i][1]}
+        return
     for (p1, p2, leaf) in unit['progs']:
         spec = wrap(p1, wrap(p2, leaf))
         if excluded(spec):
